@@ -170,4 +170,42 @@ Proof.
     + rewrite C7b, V6. reflexivity.
 Qed.
 
+(* through ArxmlFile::serialize: it first rewrites the root's xsi:schemaLocation for the file version (set_version);
+   for a root that already carries the canonical spelling that is the identity *)
+Theorem serialize_load_roundtrip root sa bs : RootCanon root ->
+  Serializer.set_version T tab_at check_fn ver root = Val root ->
+  serialize_file T tab_el tab_at tab_en check_fn float_fmt ver sa root = Val bs ->
+  exists st, load strict T tab_el tab_at tab_en check_fn float_parse bs = Val (Ret root st) /\
+             p_warnings st = [] /\ p_version st = ver.
+Proof.
+  intros RC SV SF. unfold serialize_file in SF. rewrite SV in SF. cbn [bind] in SF.
+  destruct (SER root 0 false) as [body| |] eqn:SB; try discriminate SF. cbn [bind] in SF. injection SF as <-.
+  apply file_roundtrip; assumption.
+Qed.
+
+(* and serializing what was loaded gives the same bytes again (same tree, same version, same standalone flag) *)
+Corollary serialize_fixpoint root sa bs st : RootCanon root ->
+  Serializer.set_version T tab_at check_fn ver root = Val root ->
+  serialize_file T tab_el tab_at tab_en check_fn float_fmt ver sa root = Val bs ->
+  load strict T tab_el tab_at tab_en check_fn float_parse bs = Val (Ret root st) ->
+  serialize_file T tab_el tab_at tab_en check_fn float_fmt (p_version st) sa root = Val bs.
+Proof.
+  intros RC SV SF L. destruct (serialize_load_roundtrip root sa bs RC SV SF) as (st' & L' & _ & V). rewrite L in L'.
+  injection L' as <-. rewrite V. exact SF.
+Qed.
+
 End File.
+
+(* the full property (not proved; the proved part is C01_roundtrip_partial, the missing parts are named in Properties/C01.v):
+   every tree the loader returns is canonical for its file version (so that save + load is the identity on everything
+   that loads), and save + load is the identity on canonical trees *)
+Definition C01_full : Prop :=
+  forall (T : tables) (tab_el tab_at tab_en : nametab) (check_fn : N -> list N -> res bool)
+         (float_fmt : N -> list N) (float_parse : list N -> option N) (strict : bool),
+    (forall bs t st, load strict T tab_el tab_at tab_en check_fn float_parse bs = Val (Ret t st) ->
+       RootCanon strict T tab_el tab_at tab_en check_fn float_fmt float_parse (p_version st) t) /\
+    (forall ver root sa bs, RootCanon strict T tab_el tab_at tab_en check_fn float_fmt float_parse ver root ->
+       Serializer.set_version T tab_at check_fn ver root = Val root ->
+       serialize_file T tab_el tab_at tab_en check_fn float_fmt ver sa root = Val bs ->
+       exists st, load strict T tab_el tab_at tab_en check_fn float_parse bs = Val (Ret root st) /\
+                  p_warnings st = [] /\ p_version st = ver /\ p_standalone st = sa).
